@@ -138,7 +138,7 @@ pub struct Instant { p: core::marker::PhantomData<u8> }
             && final(state).file_system_state->Some_0.describes() == old(state).db.gen_result()->Ok_0.0, //@O C18.O-5_success_remembers_generated_artifacts
         // C19: a write that failed part-way must not leave a remembered state that claims
         // the directory is up to date; the next compile has to start from scratch
-        old(state).db.gen_result() is Ok && r is Err ==> final(state).file_system_state is None, //@O C19.O-1_failed_write_forgets_directory_state
+        old(state).db.gen_result() is Ok && r is Err ==> final(state).file_system_state is None, //@O C18+C19.O-1_failed_write_forgets_directory_state
         // C17 (contrapositive): once the operations were applied successfully the compile does
         // not report an error any more — an Err is due to generation or to the write itself
         old(state).db.gen_result() is Ok && r is Err ==>
